@@ -49,6 +49,48 @@ pub fn d3() -> bool {
     direct.is_err() && stored
 }
 
+/// C03 (query c03_remote_insert): the emptiness rule on BOTH ingress paths.  Malformed shapes (EMPTY hash with a length, a
+/// real hash with length 0) are refused and not stored; a proper deletion marker and a proper record are accepted.
+pub fn c03remote() -> bool {
+    let ns = NamespaceSecret::from_bytes(&[3u8; 32]);
+    let author = Author::from_bytes(&[4u8; 32]);
+    let now = std::time::SystemTime::now().duration_since(std::time::UNIX_EPOCH).unwrap().as_micros() as u64;
+    let mut bad = false;
+    // (name, hash, len, acceptable)
+    let shapes: Vec<(&str, Hash, u64, bool)> = vec![
+        ("empty hash with a length", Hash::EMPTY, 5, false),
+        ("real hash with length 0", Hash::new(b"x"), 0, false),
+        ("deletion marker", Hash::EMPTY, 0, true),
+        ("record", Hash::new(b"x"), 1, true),
+    ];
+    for (i, (what, hash, len, ok)) in shapes.into_iter().enumerate() {
+        for via_message in [false, true] {
+            let mut store = Store::memory();
+            let mut replica = store.new_replica(ns.clone()).unwrap();
+            let key = [b'k', i as u8];
+            let id = RecordIdentifier::new(ns.id(), author.id(), key);
+            let e = SignedEntry::from_entry(Entry::new(id, Record::new(hash, len, now - 1000)), &ns, &author);
+            let accepted = if via_message {
+                let range = Range::new(RecordIdentifier::default(), RecordIdentifier::default());
+                let msg = message(vec![MessagePart::RangeItem(RangeItem { range, values: vec![(e, ContentStatus::Missing)], have_local: true })]);
+                let mut outcome = SyncOutcome::default();
+                let _ = block_on(replica.sync_process_message(msg, [9u8; 32], &mut outcome));
+                None
+            } else {
+                Some(block_on(replica.insert_remote_entry(e, [9u8; 32], ContentStatus::Missing)).is_ok())
+            };
+            let nsid = replica.id();
+            drop(replica);
+            let stored = store.get_exact(nsid, author.id(), key, true).unwrap().is_some();
+            if stored != ok || accepted.map(|a| a != ok).unwrap_or(false) {
+                eprintln!("c03remote: {what} via {}: accepted {accepted:?}, stored {stored}, expected {ok}", if via_message { "a reconciliation message" } else { "insert_remote_entry" });
+                bad = true;
+            }
+        }
+    }
+    bad
+}
+
 /// D6: the store actor is gone when the Init message is processed: `BobState::run` returns an error
 /// with `progress` taken; `into_outcome` (called unconditionally by `net::handle_connection`) panics.
 pub fn d6() -> bool {
@@ -628,6 +670,7 @@ pub fn c03clock() -> bool {
 pub fn run(id: &str) -> Option<bool> {
     Some(match id {
         "d3" => d3(),
+        "c03remote" => c03remote(),
         "d6" => d6(),
         "c12" => c12(),
         "c12pm" => c12pm(),
